@@ -255,7 +255,7 @@ def case_grid(col, p):
     for fixed_mask in itertools.product((0, 1), repeat=k):
         if all(fixed_mask):
             continue
-        fixedvals = [float(pstar[i]) * 1.2 if f else None for i, f in enumerate(fixed_mask)]
+        fixedvals = [float(pstar[i]) * 1.2 + (0.3 if p.get('integer_grid') else 0.0) if f else None for i, f in enumerate(fixed_mask)]
         fixed = fixedvals if any(fixed_mask) else None
         free = [i for i, f in enumerate(fixed_mask) if not f]
         grid = tuple(slice(pstar[i] * 0.5, pstar[i] * 1.6, pstar[i] * 0.5) for i in free)
@@ -318,6 +318,16 @@ def case_project(col, p):
             col.violation('C12:_project_params_down:value', dict(p, fixed=fixed), {'got': list(np.atleast_1d(down)), 'exp': exp_down})
         if list(np.atleast_1d(up)) != exp_up:
             col.violation('C12:_project_params_up:value', dict(p, fixed=fixed), {'got': list(np.atleast_1d(up)), 'exp': exp_up})
+        # a free vector of integer type (what a search over an all-integer grid hands over) expanded around non-integer fixed values
+        if zero is None and any(mask) and not all(mask):
+            fx2 = [10.3 + i if f else None for i, f in enumerate(mask)]
+            ints = np.arange(1, 1 + sum(1 for f in mask if not f), dtype=int)
+            up_i = Inference._project_params_up(ints, fx2)
+            it_ = iter(ints)
+            exp_i = [fx if fx is not None else float(next(it_)) for fx in fx2]
+            col.tick(transitions=1)
+            if [float(v) for v in np.atleast_1d(up_i)] != exp_i:
+                col.violation('C12:_project_params_up:integer_free_vector', dict(p, fixed=fx2), {'got': [float(v) for v in np.atleast_1d(up_i)], 'exp': exp_i})
         # inverse: down(up(x)) == x for the free entries
         again = Inference._project_params_down(up, fixed)
         if list(np.atleast_1d(again)) != exp_down:
